@@ -48,7 +48,7 @@ def _chunk(tsn, book):
 def _flight_ghost(t):
     s = 0
     for c in t._sent_queue:
-        s = s + sx.ite(sx.Or(c._acked, c._retransmit), 0, c._book_size)
+        s = s + sx.ite(sx.Or(c._acked, c._retransmit, c._abandoned, c._sent_count == 0), 0, c._book_size)
     return s
 
 
@@ -56,7 +56,9 @@ def _check_inv(ctx, t, where):
     """A (accounting), T (timer), Q (queues), well-formedness."""
     ctx.check(t._flight_size == _flight_ghost(t), where + "-A-flight-size-equals-outstanding-bytes")
     armed = t._t3_handle is not None and t._t3_handle.pending
-    ctx.check(armed == (len(t._sent_queue) > 0), where + "-T-t3-armed-iff-data-outstanding")
+    fo = getattr(t, "_forward_tsn_outstanding", None)  # an unacknowledged FORWARD-TSN (C06)
+    fwd_outstanding = bool(fo()) if fo is not None else False
+    ctx.check(armed == (len(t._sent_queue) > 0 or fwd_outstanding), where + "-T-t3-armed-iff-data-outstanding")
     ctx.check(not (len(t._outbound_queue) > 0 and len(t._sent_queue) == 0), where + "-Q-outbound-waits-only-behind-outstanding-data")
     for c in t._sent_queue:
         ctx.check(sx.Not(sx.And(c._acked, c._retransmit)), where + "-gap-acked-chunk-not-marked-for-retransmission")
